@@ -579,6 +579,9 @@ func (e *c12eval) evaluate(c *c12case, res, status string, stderr string) {
 				switch {
 				case got == c.expect:
 					e.stats["built.structure-matches-tree"]++
+					if c.expect != c.flat { // holds a message/rfc822 part with a multipart message inside (repo fix dd47701)
+						e.stats["built.embedded-multipart-matches-tree"]++
+					}
 				case got == c.flat:
 					e.violation("rfc822-multipart-flattened", "message/rfc822 part holding a multipart message is reported as a multipart with subtype \"rfc822\" (no size, envelope, lines): expected "+c.expect+" reported "+got, c)
 				default:
@@ -708,6 +711,9 @@ func runC12Structure(args []string) int {
 		return c12WorkerMain()
 	}
 	mimeQuietLogs()
+	if *driver == "" {
+		*driver = os.Getenv("VERIF_DRIVER")
+	}
 	if *driver == "" { // default: next to the harness binary (<verif>/.build/vh)
 		if exe, err := os.Executable(); err == nil {
 			p := filepath.Join(filepath.Dir(filepath.Dir(exe)), "lean", ".lake", "build", "bin", "gluon_model_driver")
